@@ -653,3 +653,371 @@ def _cl_inv(L):
         w = cl.inner.single_win()
         return If(cl.some, one(w), none_so_far)
     return one(cl.single_win())
+
+
+# ======================================================================================================
+# request line, PROXY line, parse, __init__, should_close
+# ======================================================================================================
+from pyvc.shapes import AnyStrShape, BoolShape, OptionShape
+from pyvc.values import StubV, HDict
+from pyvc.env import STUBS, R1
+from pyvc import strops as _strops
+
+
+@contract("gunicorn.util:split_request_uri", props=("C15",))
+class SplitRequestUri(Contract):
+    """TRUSTED / bounded: thin wrapper over urllib.parse.urlsplit (library code outside the subset). Returns an object with
+    text fields path / query / fragment; may raise ValueError. Its input/output relation is checked by harness/uri_diff."""
+    trusted = True
+
+    def raises(self, c):
+        return [(ValueError, None)]
+
+    def result_shape(self, c):
+        st = c.st
+        return st.alloc(HObj("SplitResult", {"path": _strops.fresh_str(st, "uri.path", True), "query": _strops.fresh_str(st, "uri.query", True),
+                                             "fragment": _strops.fresh_str(st, "uri.fragment", True)}))
+
+
+SP = 32
+
+
+def sp_free(lo, hi):
+    q = qvar("q")
+    return z3.ForAll([q], Implies(And(lo <= q, q < hi), Tsel(q) != SP))
+
+
+@contract("gunicorn.http.message:Request.parse_request_line", props=("C01", "C15"))
+class ParseRequestLine(Contract):
+    """preconditions exclude the documented-unsafe switches permit_unconventional_http_method/version, casefold_http_method"""
+
+    def cases(self, env):
+        st = base_state(env)
+        u = mk_unreader(env, st)
+        cfg = mk_cfg(env, st, permit_unconventional_http_method=False, permit_unconventional_http_version=False,
+                     casefold_http_method=False)
+        a, b = z3.Int("line.lo"), z3.Int("line.hi")
+        st.assume(0 <= a, a <= b, b <= N)
+        slf = mk_request_shell(env, st, u, cfg=cfg, method=NONE, uri=NONE, path=NONE, query=NONE, fragment=NONE, version=NONE)
+        return [("line", st, {"self": slf, "line_bytes": twin(a, b)}, {})]
+
+    def pre(self, c):
+        cfg = c.get("self.cfg")
+        t = lambda n: c.ex.truth(c.field(cfg, n), c.st)
+        return [("unsafe:permit_unconventional_http_method-off", Not(t("permit_unconventional_http_method"))),
+                ("unsafe:permit_unconventional_http_version-off", Not(t("permit_unconventional_http_version"))),
+                ("unsafe:casefold_http_method-off", Not(t("casefold_http_method"))),
+                ("line-is-a-stream-window", TRUE if t_window(c.a["line_bytes"]) is not None else FALSE)]
+
+    def modifies(self, c):
+        s = c.a["self"]
+        return [("field", s, "method", WinShape(T, True)), ("field", s, "uri", WinShape(T, True)),
+                ("field", s, "path", AnyStrShape(True)), ("field", s, "query", AnyStrShape(True)),
+                ("field", s, "fragment", AnyStrShape(True)),
+                ("field", s, "version", TupleShape([IntShape(), IntShape()]))]
+
+    def raises(self, c):
+        E = errs(c)
+        return [(E.InvalidRequestLine, None), (E.InvalidRequestMethod, None), (E.InvalidHTTPVersion, None)]
+
+    def post(self, c):
+        o = c.st.obj(c.a["self"])
+        tw = t_window(c.a["line_bytes"])
+        if tw is None or tw[0] == "empty":
+            return [("line-window", FALSE)]
+        a, b = tw[1], tw[2]
+        m, ur, ver = o.fields["method"], o.fields["uri"], o.fields["version"]
+        mw = m.single_win() if isinstance(m, SStr) else None
+        uw = ur.single_win() if isinstance(ur, SStr) else None
+        if mw is None or uw is None or not isinstance(ver, STuple) or len(ver.items) != 2:
+            return [("fields-set-from-the-line", FALSE)]
+        q = qvar("q")
+        v0, v1 = ver.items[0].t, ver.items[1].t
+        vs = uw.hi + 1
+        lit = b"HTTP/"
+        return [
+            ("method==T[a:first-SP)", And(mw.lo == a, mw.lo < mw.hi, Tsel(mw.hi) == SP, sp_free(a, mw.hi), mw.hi < b)),
+            ("method-is-token", z3.ForAll([q], Implies(And(mw.lo <= q, q < mw.hi), is_tchar(Tsel(q))))),
+            ("method-conventional", And(mw.hi - mw.lo >= 3, mw.hi - mw.lo <= 20,
+                                        z3.ForAll([q], Implies(And(mw.lo <= q, q < mw.hi), And(Not(And(Tsel(q) >= 97, Tsel(q) <= 122)), Tsel(q) != 35))))),
+            ("target==T[after-method:next-SP) non-empty", And(uw.lo == mw.hi + 1, uw.lo < uw.hi, Tsel(uw.hi) == SP, sp_free(uw.lo, uw.hi), uw.hi < b)),
+            ("version-text-is-HTTP/d.d", And(b - vs == 8, *([Tsel(vs + k) == lit[k] for k in range(5)] + [
+                Tsel(vs + 5) >= 48, Tsel(vs + 5) <= 57, Tsel(vs + 6) == 46, Tsel(vs + 7) >= 48, Tsel(vs + 7) <= 57]))),
+            ("version-value", And(v0 == Tsel(vs + 5) - 48, v1 == Tsel(vs + 7) - 48)),
+            ("version-is-1.x", v0 == 1),
+        ]
+
+
+# ---- PROXY protocol ------------------------------------------------------------------------------------
+def _inet_pton(ex, st, self_v, args, kwargs, node):
+    # TRUSTED: address syntax check of the C library; either returns (opaque) or raises OSError
+    s2 = st.fork()
+    return [ex.res(st, Opaque("packed-addr")), ex.res_exc(s2, SExc(OSError, (), {"errno": SInt(fresh_int("errno"))}))]
+
+
+STUBS["socket.inet_pton"] = _inet_pton
+STUBS["_socket.inet_pton"] = _inet_pton
+
+
+@contract("gunicorn.http.message:Request.proxy_protocol_access_check", props=("C08",))
+class ProxyAccessCheck(Contract):
+    exact_raises = True
+
+    def cases(self, env):
+        out = []
+        for pk in ("tcp", "unix"):
+            st = base_state(env)
+            u = mk_unreader(env, st)
+            cfg = mk_cfg(env, st)
+            slf = mk_request_shell(env, st, u, cfg=cfg, peer_addr=mk_peer(st, pk))
+            out.append(("peer=" + pk, st, {"self": slf}, {}))
+        return out
+
+    def raises(self, c):
+        E = errs(c)
+        peer = c.st.obj(c.a["self"]).fields["peer_addr"]
+        return [(E.ForbiddenProxyRequest, Not(allowed(c, c.st, "proxy_allow_ips", peer)))]
+
+
+@contract("gunicorn.http.message:Request.parse_proxy_protocol", props=("C08",))
+class ParseProxyProtocol(Contract):
+    def cases(self, env):
+        st = base_state(env)
+        u = mk_unreader(env, st)
+        cfg = mk_cfg(env, st)
+        a, b = z3.Int("pl.lo"), z3.Int("pl.hi")
+        st.assume(0 <= a, a <= b, b <= N)
+        slf = mk_request_shell(env, st, u, cfg=cfg, proxy_protocol_info=NONE)
+        return [("line", st, {"self": slf, "line": twin(a, b, True)}, {})]
+
+    def modifies(self, c):
+        return [("field", c.a["self"], "proxy_protocol_info", _PPI)]
+
+    def raises(self, c):
+        return [(errs(c).InvalidProxyLine, None)]
+
+    def post(self, c):
+        info = c.st.obj(c.a["self"]).fields["proxy_protocol_info"]
+        if not isinstance(info, Ref) or not isinstance(c.st.obj(info), HDict):
+            return [("info-is-a-dict", FALSE)]
+        d = c.st.obj(info).items
+        need = {"proxy_protocol", "client_addr", "client_port", "proxy_addr", "proxy_port"}
+        if set(d) != need:
+            return [("info-has-the-five-fields", FALSE)]
+        tw = t_window(c.a["line"])
+        a, b = tw[1], tw[2]
+        ca, pa = d["client_addr"], d["proxy_addr"]
+        wca, wpa = ca.single_win(), pa.single_win()
+        ok = wca is not None and wpa is not None and wca.base.eq(T) and wpa.base.eq(T)
+        out = [("addresses-are-parts-of-the-line", And(a <= wca.lo, wca.lo <= wca.hi, wca.hi < wpa.lo, wpa.hi <= b) if ok else FALSE),
+               ("ports-in-range", And(d["client_port"].t >= 0, d["client_port"].t <= 65535, d["proxy_port"].t >= 0, d["proxy_port"].t <= 65535))]
+        return out
+
+
+class _PPIShape:
+    pass
+
+
+def _mk_ppi(st):
+    return st.alloc(HDict({"proxy_protocol": _strops.fresh_str(st, "ppi.proto", True), "client_addr": _strops.fresh_str(st, "ppi.caddr", True),
+                           "client_port": SInt(fresh_int("ppi.cport")), "proxy_addr": _strops.fresh_str(st, "ppi.paddr", True),
+                           "proxy_port": SInt(fresh_int("ppi.pport"))}))
+
+
+from pyvc.shapes import Shape as _Shape
+
+
+class PPIShape(_Shape):
+    sorts = ()
+
+    def fresh(self, st, name):
+        return _mk_ppi(st)
+
+
+_PPI = PPIShape()
+
+
+@contract("gunicorn.http.message:Request.proxy_protocol", props=("C08",))
+class ProxyProtocol(Contract):
+    def cases(self, env):
+        out = []
+        for pk in ("tcp", "unix"):
+            st = base_state(env)
+            u = mk_unreader(env, st)
+            cfg = mk_cfg(env, st)
+            a, b = z3.Int("pl.lo"), z3.Int("pl.hi")
+            st.assume(0 <= a, a <= b, b <= N)
+            slf = mk_request_shell(env, st, u, cfg=cfg, peer_addr=mk_peer(st, pk), proxy_protocol_info=NONE,
+                                   req_number=SInt(z3.Int("req_number")))
+            out.append(("peer=" + pk, st, {"self": slf, "line": twin(a, b, True)}, {}))
+        return out
+
+    def modifies(self, c):
+        return [("field", c.a["self"], "proxy_protocol_info", OptionShape(_PPI))]
+
+    def result_shape(self, c):
+        return BoolShape()
+
+    def raises(self, c):
+        E = errs(c)
+        return [(E.ForbiddenProxyRequest, None), (E.InvalidProxyLine, None)]
+
+    def post(self, c):
+        o1, o0 = c.st.obj(c.a["self"]), c.old.obj(c.a["self"])
+        cfg = c.get("self.cfg", c.old)
+        res = c.ex.truth(c.result, c.st)
+        peer = o0.fields["peer_addr"]
+        info1, info0 = o1.fields["proxy_protocol_info"], o0.fields["proxy_protocol_info"]
+        changed = Not(c.ex.identical(info1, info0, c.st)) if not isinstance(info1, SOpt_) else info1.some
+        line = c.a["line"]
+        return [
+            ("PROXY-line-accepted-only-when-enabled-first-request-trusted-peer",
+             Implies(res, And(c.ex.truth(c.field(cfg, "proxy_protocol", c.old), c.old), o0.fields["req_number"].t == 1,
+                              _strops.prefix_holds(line, b"PROXY"), allowed(c, c.old, "proxy_allow_ips", peer)))),
+            ("client-address-info-set-only-by-an-accepted-PROXY-line", Implies(changed, res)),
+        ]
+
+
+from pyvc.values import SOpt as SOpt_   # noqa: E402
+
+
+# ======================================================================================================
+# Request.parse / Message.__init__ / Request.__init__
+# ======================================================================================================
+f2crlf_h = z3.Function("f2crlf", I, I)     # same ghost function as in http_chunked (first CRLFCRLF at/after d, or -1)
+
+
+def crlf2_at(p):
+    return And(crlf_at(p), crlf_at(p + 2))
+
+
+def f2_axiom(d):
+    X = f2crlf_h(d)
+    p = qvar("p")
+    return Or(And(X == -1, z3.ForAll([p], Implies(And(d <= p, p + 4 <= N), Not(crlf2_at(p))))),
+              And(d <= X, X + 4 <= N, crlf2_at(X), z3.ForAll([p], Implies(And(d <= p, p < X), Not(crlf2_at(p))))))
+
+
+def head_end_from(h):
+    """stream position right after the header block that starts at h (spec): h+2 if the block is empty, else 4 past the
+    first CRLFCRLF"""
+    return If(And(h + 2 <= N, crlf_at(h)), h + 2, f2crlf_h(h) + 4)
+
+
+def mk_parse_self(env, st, u, peer_kind="tcp", with_proxy=True):
+    cfg = mk_cfg(env, st, strip_header_spaces=False, permit_obsolete_folding=False, permit_unconventional_http_method=False,
+                 permit_unconventional_http_version=False, casefold_http_method=False)
+    lrl, lrf, lrfs, mbh = (z3.Int("self.limit_request_line"), z3.Int("self.limit_request_fields"),
+                           z3.Int("self.limit_request_field_size"), z3.Int("self.max_buffer_headers"))
+    st.assume(0 <= lrl, lrl <= 8190, 1 <= lrf, lrf <= 32768, lrfs >= 0, mbh >= lrf * 2 + 4)
+    hdrs = st.alloc(HList([]))
+    return mk_request_shell(env, st, u, cfg=cfg, peer_addr=mk_peer(st, peer_kind), limit_request_line=SInt(lrl),
+                            limit_request_fields=SInt(lrf), limit_request_field_size=SInt(lrfs), max_buffer_headers=SInt(mbh),
+                            req_number=SInt(z3.Int("req_number")), proxy_protocol_info=NONE, scheme=enum_scheme(st),
+                            headers=hdrs, method=NONE, uri=NONE, path=NONE, query=NONE, fragment=NONE, version=NONE,
+                            trailers=st.alloc(HList([])), body=NONE, must_close=SBool(False))
+
+
+@contract("gunicorn.http.message:Request.parse", props=("C01", "C06", "C12"))
+class RequestParse(Contract):
+    weight = 5
+
+    def cases(self, env):
+        st = base_state(env)
+        u = mk_unreader(env, st)
+        slf = mk_parse_self(env, st, u)
+        return [("request", st, {"self": slf, "unreader": u}, {})]
+
+    def pre(self, c):
+        u = c.a["unreader"]
+        o = c.st.obj(c.a["self"])
+        cfg = c.get("self.cfg")
+        t = lambda n: c.ex.truth(c.field(cfg, n), c.st)
+        return list(RI(c, u)) + [
+            ("self.unreader-is-the-unreader", TRUE if o.fields["unreader"].oid == u.oid else FALSE),
+            ("limits-clamped", And(o.fields["limit_request_line"].t >= 0, o.fields["limit_request_fields"].t >= 1,
+                                   o.fields["limit_request_field_size"].t >= 0)),
+            ("unsafe-switches-off", Not(Or(t("strip_header_spaces"), t("permit_obsolete_folding"), t("permit_unconventional_http_method"),
+                                           t("permit_unconventional_http_version"), t("casefold_http_method"))))]
+
+    def ghost_axioms(self, c):
+        p0 = u_pos(c, c.a["unreader"])
+        F1 = fcrlf(p0)
+        return [fc_axiom(p0), fc_axiom(F1 + 2), f2_axiom(F1 + 2), f2_axiom(fcrlf(F1 + 2) + 2), fc_def(p0, N)]
+
+    def modifies(self, c):
+        u = c.a["unreader"]
+        s = c.a["self"]
+        return [("field", u, "g_sp"), ("obj", c.st.obj(u).fields["buf"], WinShape(T)),
+                ("field", s, "headers", ListShape(HDR_SHAPE)), ("field", s, "scheme", AnyStrShape(True)),
+                ("field", s, "method", WinShape(T, True)), ("field", s, "uri", WinShape(T, True)),
+                ("field", s, "path", AnyStrShape(True)), ("field", s, "query", AnyStrShape(True)),
+                ("field", s, "fragment", AnyStrShape(True)), ("field", s, "version", TupleShape([IntShape(), IntShape()])),
+                ("field", s, "proxy_protocol_info", OptionShape(_PPI))]
+
+    def result_shape(self, c):
+        return WinShape(T)
+
+    def raises(self, c):
+        E = errs(c)
+        u = c.a["unreader"]
+        names = ["NoMoreData", "LimitRequestLine", "LimitRequestHeaders", "InvalidRequestLine", "InvalidRequestMethod",
+                 "InvalidHTTPVersion", "InvalidHeader", "InvalidHeaderName", "ObsoleteFolding", "InvalidSchemeHeaders",
+                 "ForbiddenProxyRequest", "InvalidProxyLine"]
+        return [(StopIteration, u_pos(c, u) == N)] + [(getattr(E, n), None) for n in names] + [oserror(c)]
+
+    def exc_post(self, c):
+        return list(RI(c, c.a["unreader"]))
+
+    def post(self, c):
+        u = c.a["unreader"]
+        s1, s0 = c.st.obj(c.a["self"]), c.old.obj(c.a["self"])
+        p0 = u_pos(c, u, c.old)
+        pos1 = u_pos(c, u)
+        F1 = fcrlf(p0)
+        F2 = fcrlf(F1 + 2)
+        cfg = c.get("self.cfg", c.old)
+        peer = s0.fields["peer_addr"]
+        proxy_ok = And(c.ex.truth(c.field(cfg, "proxy_protocol", c.old), c.old), s0.fields["req_number"].t == 1,
+                       allowed(c, c.old, "proxy_allow_ips", peer))
+        mbh = s0.fields["max_buffer_headers"].t
+        ret = c.result
+        hdrs = c.st.obj(s1.fields["headers"])
+        m = s1.fields["method"]
+        mw = m.single_win() if isinstance(m, SStr) else None
+
+        def shape_at(h, rl):
+            """the head was read as: request line starting at rl, header block starting at h"""
+            done = And(h + 2 <= N, crlf_at(h))
+            X = f2crlf_h(h)
+            facts = [mw.lo == rl if mw is not None else FALSE,
+                     If(done,
+                        And(pos1 == h + 2, ret.length() == 0),
+                        And(X >= 0, is_T(ret, X + 4, pos1), pos1 == u_sp(c, u), X + 3 - h <= mbh))]
+            if hdrs.sym is not None:
+                facts.append(Implies(Not(done), headers_wf(hdrs.sym, h, X)))
+                facts.append(Implies(done, hdrs.sym.length() == 0))
+            elif hdrs.items:
+                facts.append(FALSE)
+            else:
+                facts.append(TRUE)
+            return And(*facts)
+        return list(RI(c, u)) + [
+            ("request-line-found", F1 >= 0),
+            ("head-read-exactly-as-the-stream-dictates",
+             Or(shape_at(F1 + 2, p0), And(proxy_ok, F2 >= 0, shape_at(F2 + 2, F1 + 2)))),
+        ]
+
+    loops = {0: dict(anchor="while True", cands=[
+        ("RI(unreader)", lambda L: RI_and(_C(L), L.unreader, L.st)),
+        ("unreader-buffer-empty", lambda L: u_buf(_C(L), L.unreader, L.st).length() == 0),
+        ("data==buf==T[h:pos)", lambda L: And(is_T(L.data, _h(L), u_pos(_C(L), L.unreader, L.st)),
+                                              is_T(L.st.obj(L.buf).content, _h(L), u_pos(_C(L), L.unreader, L.st)))),
+        ("pos>=h", lambda L: u_pos(_C(L), L.unreader, L.st) >= _h(L)),
+    ])}
+
+
+def _h(L):
+    """start of the header block = start of the buffer at loop entry"""
+    pos = u_pos(_C(L), L.unreader, L.entry)
+    return pos - L.entry.obj(L.entry.locals["buf"]).content.length()
